@@ -3,6 +3,7 @@ package harness
 import (
 	"encoding/json"
 	"fmt"
+	"path"
 	"regexp"
 	"strconv"
 	"strings"
@@ -100,10 +101,20 @@ func msgClass(m string) string {
 //	moved:<kinds>               same messages at different positions (other than the above)
 //	content:<kinds>             different sets of messages
 //	stdout                      same diagnostics, different rendered bytes
+// lastDiffAllCallee / lastDiffMsgs describe the last difference firstDiff classified: whether all
+// differing diagnostics are about a local callee's own defects, and their messages.
+var (
+	lastDiffAllCallee bool
+	lastDiffMsgs      []string
+)
+
 func firstDiff(a, b lintCmp) (what string, class string) {
-	if a.Fatal != b.Fatal || a.Exit != b.Exit {
-		return fmt.Sprintf("exit status %d (fatal=%v) versus %d (fatal=%v)", a.Exit, a.Fatal, b.Exit, b.Fatal), "exit"
+	lastDiffAllCallee, lastDiffMsgs = false, nil
+	exitDiff := fmt.Sprintf("exit status %d (fatal=%v) versus %d (fatal=%v)", a.Exit, a.Fatal, b.Exit, b.Fatal)
+	if a.Fatal != b.Fatal || (a.Exit != b.Exit && (a.Exit == 3 || b.Exit == 3)) {
+		return exitDiff, "exit"
 	}
+	// (status 0 versus 1 follows from the diagnostics: classified by what differs there)
 	cnt := map[ErrRec]int{}
 	for _, e := range a.Errs {
 		cnt[e]++
@@ -140,6 +151,9 @@ func firstDiff(a, b lintCmp) (what string, class string) {
 			}
 			return "stdout differs in length", "stdout"
 		}
+		if a.Exit != b.Exit {
+			return exitDiff, "exit"
+		}
 		return "", ""
 	}
 	kinds := map[string]bool{}
@@ -174,6 +188,7 @@ func firstDiff(a, b lintCmp) (what string, class string) {
 	for _, e := range onlyB {
 		b2.WriteString("      " + e.String() + "\n")
 	}
+	lastDiffAllCallee, lastDiffMsgs = allCallee, sortedKeys(msgs)
 	ks := strings.Join(sortedKeys(kinds), "+")
 	// every differing message also occurs in the other run (at another site or another number of times)
 	inBoth := true
@@ -205,7 +220,7 @@ func firstDiff(a, b lintCmp) (what string, class string) {
 
 func (c02) Eval(c *Chooser, env *Env) *Outcome {
 	o := &Outcome{}
-	opts := GenOpts{Ties: true, GenIface: true, Corpus: true, Projects: true, Defective: true, Loose: true, SelfArg: true, MaxRepos: 2, MaxFiles: 3}
+	opts := GenOpts{Ties: true, GenIface: true, Corpus: true, Projects: true, Defective: true, Loose: true, SelfArg: true, PathConfigs: true, MaxRepos: 2, MaxFiles: 3}
 	switch env.Variant {
 	case "single":
 		opts.MaxRepos, opts.MaxFiles = 1, 1
@@ -275,7 +290,7 @@ func (c02) Eval(c *Chooser, env *Env) *Outcome {
 		o.Sig = w.Hash() ^ r.K.TraceHash
 		return o
 	}
-	kind := c.Int("world.variantkind", 8) // 0,1: schedule+map order; 2: + other CPU count; 3: repeated execution; 4: repeated call on one Linter; 5: another GOMAXPROCS
+	kind := c.Int("world.variantkind", 10) // 0,1: schedule+map order; 2: + other CPU count; 3: repeated execution; 4: repeated call on one Linter; 5: another GOMAXPROCS
 	r0 := RunLint(w, nil, RunOpts{Canonical: true})
 	o.addRun(r0.K)
 	if v := runFailure("C02", r0.K); v != nil {
@@ -297,6 +312,40 @@ func (c02) Eval(c *Chooser, env *Env) *Outcome {
 		ro.Repeat = 2
 		ro.ReuseLinter = true
 		desc += ", second call on the same Linter instance"
+	case 8:
+		// the Linter instance has linted a file that is not YAML at all before (no rule ever ran for it)
+		if w.API != APIMain {
+			w.Disk.Put("/w/not-yaml-at-all.yml", []byte("a: [\n"))
+			ro.ReuseLinter = true
+			ro.PriorFile = "/w/not-yaml-at-all.yml"
+			desc += ", on a Linter instance that linted a file that is not YAML before"
+		}
+	case 9:
+		// a library user whose process runs elsewhere: LinterOptions.WorkingDir names the directory the
+		// canonical run had as its working directory, the arguments are absolute
+		if w.API == APIRepo {
+			// no arguments: the repository of LinterOptions.WorkingDir is linted, wherever the process is
+			w2.Opts.WorkingDir = w.Cwd
+			w2.Cwd = []string{"/", "/elsewhere", mw.Repos[len(mw.Repos)-1].Root}[c.Int("world.processcwd", 3)]
+			w.Disk.MkdirAll(w2.Cwd)
+			desc += fmt.Sprintf(", process working directory %s with LinterOptions.WorkingDir=%s and no arguments", w2.Cwd, w.Cwd)
+		}
+		if w.API == APIFiles {
+			w2.Opts.WorkingDir = w.Cwd
+			w2.Cwd = []string{"/", "/elsewhere", mw.Repos[len(mw.Repos)-1].Root + "/.github"}[c.Int("world.processcwd", 3)]
+			w.Disk.MkdirAll(w2.Cwd)
+			w2.Files = append([]string{}, mw.AbsArgs...)
+			if len(w2.Files) != len(w.Files) {
+				w2.Files = nil // (a missing argument was added: keep the spelled list)
+				for _, f := range w.Files {
+					if !strings.HasPrefix(f, "/") {
+						f = path.Join(w.Cwd, f)
+					}
+					w2.Files = append(w2.Files, f)
+				}
+			}
+			desc += fmt.Sprintf(", process working directory %s with LinterOptions.WorkingDir=%s and absolute arguments", w2.Cwd, w.Cwd)
+		}
 	case 7:
 		// the Linter instance has linted a repository of the world before (a long-lived library user)
 		// (`allKinds` lists the rules registered on the instance so far - cumulative by design and
@@ -336,6 +385,20 @@ func (c02) Eval(c *Chooser, env *Env) *Outcome {
 			// within one file the call site that reports a callee's defect is decided by the job
 			// visiting order, which is the source order: only multi-file runs may differ (known finding)
 			kinds = "callee-defect-attribution:single-file"
+		}
+		if lastDiffAllCallee && (len(w.Files) > 1 || viarepo) && kinds != "callee-defect-attribution" {
+			// the single report of a callee's defect went, in one of the two runs, to a call site in a
+			// file whose paths-ignore patterns filter it: the same schedule-dependent attribution, seen
+			// through the filter (known finding of C10, listed for C02 as well)
+			consumed := true
+			for _, m := range lastDiffMsgs {
+				if !consumedByIgnore(mw, m) {
+					consumed = false
+				}
+			}
+			if consumed {
+				kinds = "callee-defect-consumed-by-ignored-file"
+			}
 		}
 		o.V = &Violation{Oracle: "same-output", Class: kinds,
 			Message: fmt.Sprintf("the same files, configuration and options produced different results under %s.\n  %s", desc, what),
